@@ -259,8 +259,8 @@ func verifHexNumber(fwd string) ([]byte, bool) {
 }
 
 // VerifC09_MySQLSearchable: a searchable column. The stored value starts with a blind index; an equality search for
-// the same plaintext — given in clear or as a value the application already protected itself — is forwarded as a
-// comparison with exactly that index, and never carries the plaintext.
+// the same plaintext — written as a string literal or as a hex string literal — is forwarded as a comparison with
+// exactly that index, and never carries the plaintext (pre-protected search values: VerifC09_MySQLPreparedSearch).
 func VerifC09_MySQLSearchable() {
 	store := verifKeys()
 	env := config.CryptoEnvelopeTypeAcraBlock
@@ -285,14 +285,8 @@ func VerifC09_MySQLSearchable() {
 	if verif.Choose("term", 0, 1) == 0 {
 		q = verifFill("select id from t where secret = '%s'", lit)
 	} else {
-		// the application protected the search term itself (AcraWriter flow) with the column's envelope
-		rh := crypto.NewRegistryHandler(store)
-		hd, _ := crypto.GetHandlerByName(string(env))
-		term, err := rh.EncryptWithHandler(hd, []byte("A"), verifDup(lit))
-		if err != nil {
-			return
-		}
-		q = "select id from t where secret = X'" + hex.EncodeToString(term) + "'"
+		// the same bytes spelled as a hex string literal
+		q = "select id from t where secret = X'" + hex.EncodeToString(lit) + "'"
 	}
 	sobj, changed, err := h.queryObserverManager.OnQuery(ctx, emysql.NewOnQueryObjectFromQuery(q, parser))
 	verif.Reach("search-observed")
@@ -397,3 +391,169 @@ func VerifC19_MySQLTypedRowPolicies() {
 }
 
 func strPtr(s string) *string { return &s }
+
+// ---- prepared statements (binary protocol) ----
+
+// verifExecutePacket builds COM_STMT_EXECUTE with every parameter sent as VAR_STRING.
+func verifExecutePacket(stmtID uint32, params [][]byte) *Packet {
+	data := []byte{CommandStatementExecute, byte(stmtID), byte(stmtID >> 8), byte(stmtID >> 16), byte(stmtID >> 24), 0, 1, 0, 0, 0}
+	data = append(data, make([]byte, (len(params)+7)/8)...) // null bitmap
+	data = append(data, 1)                                  // new-params-bound
+	for range params {
+		data = append(data, byte(base_mysql.TypeVarString), 0)
+	}
+	for _, p := range params {
+		data = append(data, base_mysql.PutLengthEncodedString(p)...)
+	}
+	packet := NewPacket()
+	packet.SetData(data)
+	return packet
+}
+
+// verifExecuteParams splits the parameter values out of a COM_STMT_EXECUTE payload (independent of Packet's code).
+func verifExecuteParams(data []byte, n int) ([][]byte, bool) {
+	pos := 10 + (n+7)/8
+	if len(data) < pos+1 || data[pos] != 1 {
+		return nil, false
+	}
+	pos += 1 + 2*n
+	var out [][]byte
+	for i := 0; i < n; i++ {
+		if pos >= len(data) {
+			return nil, false
+		}
+		v, used, err := base_mysql.LengthEncodedString(data[pos:])
+		if err != nil {
+			return nil, false
+		}
+		out = append(out, v)
+		pos += used
+	}
+	return out, pos == len(data)
+}
+
+// verifPrepare does what the handler does around COM_STMT_PREPARE: the observers see the statement text, and the
+// statement is registered when the database has answered.
+func verifPrepare(h *Handler, ctx context.Context, parser *sqlparser.Parser, id uint32, query string, params int) bool {
+	if _, _, err := h.queryObserverManager.OnQuery(ctx, emysql.NewOnQueryObjectFromQuery(query, parser)); err != nil {
+		return false
+	}
+	st, err := parser.Parse(query)
+	if err != nil {
+		return false
+	}
+	h.registry.AddStatement(NewPreparedStatementItem(NewPreparedStatement(id, uint16(params), query, st), nil))
+	return true
+}
+
+// VerifC04_MySQLPreparedWrite: values bound to placeholders of the protected column in a prepared INSERT (one row,
+// two rows) or UPDATE are forwarded in protected form only, the other parameters unchanged; what was forwarded comes
+// back as the original for the owner.
+func VerifC04_MySQLPreparedWrite() {
+	store := verifKeys()
+	h, ctx, parser := verifProxy(store, "A", config.CryptoEnvelopeTypeAcraBlock)
+	lit := verifMarker("value", 3)
+	var query string
+	var params [][]byte
+	var secretAt []int
+	switch verif.Choose("statement", 0, 2) {
+	case 0:
+		query, params, secretAt = "insert into t (id, secret, plain) values (?, ?, ?)", [][]byte{[]byte("1"), lit, []byte("keep")}, []int{1}
+	case 1:
+		query = "insert into t (id, secret, plain) values (?, ?, ?), (?, ?, ?)"
+		params = [][]byte{[]byte("1"), lit, []byte("keep"), []byte("2"), verifMarker("second", 3), []byte("keep")}
+		secretAt = []int{1, 4}
+	case 2:
+		query, params, secretAt = "update t set plain = ?, secret = ? where id = ?", [][]byte{[]byte("keep"), lit, []byte("1")}, []int{1}
+	}
+	if !verifPrepare(h, ctx, parser, 1, query, len(params)) {
+		verif.Assert(false, "prepared")
+		return
+	}
+	packet := verifExecutePacket(1, params)
+	_, err := h.handleStatementExecute(ctx, packet)
+	verif.Reach("executed")
+	verif.Assert(err == nil, "execute-no-error")
+	if err != nil {
+		return
+	}
+	fwd, ok := verifExecuteParams(packet.GetData(), len(params))
+	verif.Assert(ok, "forwarded-execute-well-formed")
+	if !ok {
+		return
+	}
+	isSecret := map[int]bool{}
+	for _, i := range secretAt {
+		isSecret[i] = true
+	}
+	for i := range params {
+		if isSecret[i] {
+			verif.Assert(len(fwd[i]) > len(params[i]) && !verif.Eq(fwd[i][:3], params[i]), "protected-parameter-rewritten")
+		} else {
+			verif.Assert(verif.Eq(fwd[i], params[i]), "uncovered-parameter-unchanged")
+		}
+	}
+	// read back what the first protected parameter stored
+	row := base_mysql.PutLengthEncodedString([]byte("1"))
+	row = append(row, base_mysql.PutLengthEncodedString(fwd[secretAt[0]])...)
+	row = append(row, base_mysql.PutLengthEncodedString([]byte("keep"))...)
+	fields := []*ColumnDescription{{Name: []byte("id")}, {Name: []byte("secret")}, {Name: []byte("plain")}}
+	out, err := h.processTextDataRow(ctx, verifDup(row), fields)
+	verif.Assert(err == nil, "row-no-error")
+	if err != nil {
+		return
+	}
+	want := base_mysql.PutLengthEncodedString([]byte("1"))
+	want = append(want, base_mysql.PutLengthEncodedString(lit)...)
+	want = append(want, base_mysql.PutLengthEncodedString([]byte("keep"))...)
+	verif.Assert(verif.Eq(out, want), "owner-reads-original-row")
+}
+
+// VerifC09_MySQLPreparedSearch: the searched value of a prepared equality search, bound in clear or already protected
+// by the application, is replaced by exactly the blind index the stored value carries.
+func VerifC09_MySQLPreparedSearch() {
+	store := verifKeys()
+	env := config.CryptoEnvelopeTypeAcraBlock
+	if verif.Choose("envelope", 0, 1) == 1 {
+		env = config.CryptoEnvelopeTypeAcraStruct
+	}
+	setting := &config.BasicColumnEncryptionSetting{Name: "secret", UsedClientID: "A", CryptoEnvelope: &env, Searchable: true}
+	h, ctx, parser := verifProxyWith(store, "A", setting)
+	lit := verifMarker("literal", 3)
+	obj, changed, err := h.queryObserverManager.OnQuery(ctx, emysql.NewOnQueryObjectFromQuery(verifFill("insert into t (id, secret, plain) values (1, '%s', 'keep')", lit), parser))
+	if err != nil || !changed {
+		verif.Assert(false, "write-rewritten")
+		return
+	}
+	stored, ok := verifStoredHexLiteral(obj.Query())
+	if !ok {
+		verif.Assert(false, "protected-value-is-a-hex-literal")
+		return
+	}
+	term := lit
+	if verif.Choose("term", 0, 1) == 1 {
+		rh := crypto.NewRegistryHandler(store)
+		hd, _ := crypto.GetHandlerByName(string(env))
+		term, err = rh.EncryptWithHandler(hd, []byte("A"), verifDup(lit))
+		if err != nil {
+			return
+		}
+	}
+	if !verifPrepare(h, ctx, parser, 1, "select id from t where secret = ?", 1) {
+		verif.Assert(false, "prepared")
+		return
+	}
+	packet := verifExecutePacket(1, [][]byte{term})
+	_, err = h.handleStatementExecute(ctx, packet)
+	verif.Reach("executed")
+	verif.Assert(err == nil, "execute-no-error")
+	if err != nil {
+		return
+	}
+	fwd, ok := verifExecuteParams(packet.GetData(), 1)
+	verif.Assert(ok, "forwarded-execute-well-formed")
+	if !ok {
+		return
+	}
+	verif.Assert(len(fwd[0]) > 0 && len(fwd[0]) <= len(stored) && verif.Eq(fwd[0], stored[:len(fwd[0])]), "search-index-is-the-stored-prefix")
+}
